@@ -297,6 +297,13 @@ fn open_index(config: &crate::config::Config) -> Result<(bool, Index)> {
         }
     }
 
+    // The stored metadata does not describe the index that is about to be
+    // created. Drop it first, so that it cannot vouch for a half-built index
+    // if we are interrupted before the rebuild has completed.
+    if config.meta_path.is_file() {
+        fs::remove_file(&config.meta_path)?;
+    }
+
     if config.index_path.is_dir() {
         log::info!("removing index: {}", config.index_path.display());
         fs::remove_dir_all(&config.index_path)?;
